@@ -201,18 +201,15 @@ Proof.
   pose proof (inv_time _ _ I _ _ P) as T. unfold not_overdue in T. destruct b; lia.
 Qed.
 
-(* ----------------------------------------------------------------- change_state *)
-Lemma ck_change : forall c nm k m s d t a (ex en : list tcb),
+(* ----------------------------------------------------------------- the state change *)
+Lemma ck_change : forall c nm k m s d t a,
   ck_ok k = true -> ck_last k <= t -> ck_open k m = Some (s, a) ->
   match a with Some dl => t <= dl | None => True end ->
-  let k' := ck_run c nm k ((TExited m s t :: map (fun cb => CExit cb m s t) ex) ++
-                           TEntered m d t :: map (fun cb => CEnter cb m d t) en) in
+  let k' := ck_run c nm k [TExited m s t; TEntered m d t] in
   ck_ok k' = true /\ ck_last k' = t /\
   forall m', ck_open k' m' = if Nat.eqb m' m then Some (d, period c d t) else ck_open k m'.
 Proof.
-  intros c nm k m s d t a ex en Hok Hl Ho Ha k'. unfold k'. rewrite ck_run_app. simpl.
-  rewrite ck_run_skip by (apply skip_map; reflexivity). simpl.
-  rewrite ck_run_skip by (apply skip_map; reflexivity). simpl.
+  intros c nm k m s d t a Hok Hl Ho Ha k'. unfold k'. simpl.
   rewrite upd_same, Hok, Ho, Nat.eqb_refl. simpl.
   assert (T : match a with Some dl => t <=? dl | None => true end = true).
   { destruct a; [apply Nat.leb_le; exact Ha|reflexivity]. }
@@ -220,91 +217,84 @@ Proof.
   repeat split. intros m'. unfold upd. destruct (Nat.eqb m' m); reflexivity.
 Qed.
 
+Lemma cancel_slot_fields : forall w s m,
+  w_clock (cancel_slot w s m) = w_clock w /\ w_st (cancel_slot w s m) = w_st w /\
+  w_runner (cancel_slot w s m) = w_runner w /\ length (w_timers (cancel_slot w s m)) = length (w_timers w).
+Proof.
+  intros w s m. unfold cancel_slot. destruct (w_runner w s m); simpl; auto using length_upd_nth.
+Qed.
+
 Section Change.
   Variable c : tcfg.
   Variable nm : nat.
 
-  Lemma change_state_R : forall b w k m d its w',
-    R b w k -> change_state c w m d = (its, w') ->
-    R b w' (ck_run c nm k its) /\ nonew w w' /\
+  Lemma switch_R : forall b w k m d mk w',
+    R b w k -> set_and_start c (cancel_slot w (w_st w m) m) m d = (mk, w') ->
+    R b w' (ck_run c nm k mk) /\ nonew w w' /\
     (forall m', w_st w' m' = if Nat.eqb m' m then d else w_st w m') /\
     armed w' m = period c d (w_clock w) /\
     (forall m', m' <> m -> armed w' m' = armed w m') /\
     (forall j tm, pend w' j tm -> tm_model tm = m -> j = length (w_timers w)).
   Proof.
-    intros b w k m d its w' (Hok & Hlast & I & Hopen) E.
-    unfold change_state, do_exit, do_enter in E. simpl in E.
+    intros b w k m d mk w' (Hok & Hlast & I & Hopen) E.
     set (s := w_st w m) in *.
-    set (l1 := match w_runner w s m with Some i => upd_nth (w_timers w) i cancel_if_alive | None => w_timers w end) in *.
-    set (w1 := set_timers w l1).
+    set (w1 := cancel_slot w s m) in *.
+    destruct (cancel_slot_fields w s m) as (C1 & S1 & Rn1 & L1). fold w1 in C1, S1, Rn1, L1.
     assert (I1 : Inv b w1).
-    { unfold w1, l1. destruct (w_runner w s m) as [i|]; [apply upd_inv; auto using kf_cancel, nr_cancel|].
-      destruct w; exact I. }
+    { unfold w1, cancel_slot. destruct (w_runner w s m) as [i|]; [apply upd_inv; auto using kf_cancel, nr_cancel|exact I]. }
     assert (P1 : forall j tm, pend w1 j tm -> pend w j tm).
-    { unfold w1, l1. destruct (w_runner w s m) as [i|]; [apply upd_pend; auto using nr_cancel|].
-      intros j tm P. destruct w; exact P. }
+    { unfold w1, cancel_slot. destruct (w_runner w s m) as [i|]; [apply upd_pend; auto using nr_cancel|auto]. }
     assert (E1 : forall j tm, pend w1 j tm -> tm_model tm <> m).
     { intros j tm P Hm. pose proof (P1 _ _ P) as P0.
       destruct (inv_pend _ _ I _ _ P0) as [Hs Hr]. rewrite Hm in Hs, Hr. fold s in Hs. rewrite <- Hs in Hr.
-      destruct P as [Hn Hp]. unfold w1, l1 in Hn. rewrite Hr in Hn. simpl in Hn.
+      destruct P as [Hn Hp]. unfold w1, cancel_slot in Hn. rewrite Hr in Hn. simpl in Hn.
       rewrite nth_error_upd_nth_same in Hn. destruct P0 as [Hn0 _]. rewrite Hn0 in Hn. simpl in Hn.
       injection Hn as Hn. rewrite <- Hn, cancel_not_pending in Hp. discriminate. }
     assert (A1 : forall m', m' <> m -> armed w1 m' = armed w m').
-    { intros m' Hne. unfold w1, l1. destruct (w_runner w s m) as [i|] eqn:Hr.
-      - apply upd_armed_other. intros Hr'. destruct (slot_model _ _ _ _ _ _ _ I Hr Hr'). congruence.
-      - destruct w; reflexivity. }
-    assert (L1 : length l1 = length (w_timers w)).
-    { unfold l1. destruct (w_runner w s m); [apply length_upd_nth|reflexivity]. }
+    { intros m' Hne. unfold w1, cancel_slot. destruct (w_runner w s m) as [i|] eqn:Hr; [|reflexivity].
+      apply upd_armed_other. intros Hr'. destruct (slot_model _ _ _ _ _ _ _ I Hr Hr'). congruence. }
     assert (Ta : match armed w m with Some dl => w_clock w <= dl | None => True end).
     { destruct (armed w m) as [dl|] eqn:Ha; [|exact Logic.I]. eapply armed_time; eauto. }
+    unfold set_and_start in E. rewrite C1, S1, Rn1 in E. fold s in E.
+    pose proof (ck_change c nm k m s d (w_clock w) (armed w m) Hok Hlast (Hopen m) Ta) as (K1 & K2 & K3).
     unfold timeout_of in *.
     destruct (Nat.ltb 0 (ts_timeout (sdef c d))) eqn:Ht.
     - (* a timer is started *)
-      inversion E; subst its w'; clear E.
-      match goal with |- context [ck_run c nm k ?x] => set (k' := ck_run c nm k x) end.
-      assert (K : ck_ok k' = true /\ ck_last k' = w_clock w /\
-                  forall m', ck_open k' m' = if Nat.eqb m' m then Some (d, period c d (w_clock w)) else ck_open k m')
-        by exact (ck_change c nm k m s d (w_clock w) (armed w m) (ts_exit (sdef c s)) (ts_enter (sdef c d))
-                            Hok Hlast (Hopen m) Ta).
-      destruct K as (K1 & K2 & K3).
-      apply Nat.ltb_lt in Ht.
+      inversion E; subst mk w'; clear E.
+      set (l1 := w_timers w1) in *.
       set (new := mkTimer d m (w_clock w + ts_timeout (sdef c d)) Pending).
-      assert (Pn : forall j tm, pend (mkW (w_clock w) (upd (w_st w) m d) (l1 ++ [new])
-                                          (upd2 (w_runner w) d m (Some (length l1)))) j tm ->
-                   (j < length l1 /\ pend w1 j tm) \/ (j = length l1 /\ tm = new)).
+      set (W := mkW (w_clock w) (upd (w_st w) m d) (l1 ++ [new]) (upd2 (w_runner w) d m (Some (length l1)))).
+      apply Nat.ltb_lt in Ht.
+      assert (Pn : forall j tm, pend W j tm -> (j < length l1 /\ pend w1 j tm) \/ (j = length l1 /\ tm = new)).
       { intros j tm [Hn Hp]. simpl in Hn. destruct (Nat.lt_ge_cases j (length l1)) as [Hlt|Hge].
         - left. rewrite nth_error_app1 in Hn by auto. split; [auto|split; auto].
         - right. rewrite nth_error_app2 in Hn by auto. destruct (j - length l1) as [|q] eqn:Hq.
           + simpl in Hn. inversion Hn. split; [lia|reflexivity].
           + simpl in Hn. destruct q; discriminate. }
-      assert (Inew : Inv b (mkW (w_clock w) (upd (w_st w) m d) (l1 ++ [new])
-                                (upd2 (w_runner w) d m (Some (length l1))))).
+      assert (Inew : Inv b W).
       { constructor; simpl.
         - intros s' m' j Hr. unfold upd2 in Hr.
           destruct (Nat.eqb s' d && Nat.eqb m' m) eqn:Hq.
           + inversion Hr; subst j. apply andb_true_iff in Hq as [Q1 Q2].
             apply Nat.eqb_eq in Q1. apply Nat.eqb_eq in Q2. subst s' m'.
             exists new. rewrite nth_error_app2, Nat.sub_diag by lia. simpl. auto.
-          + destruct (inv_slot _ _ I1 _ _ _ Hr) as (tm & Hn & Hs & Hm). exists tm. split; [|auto].
-            rewrite nth_error_app1; [exact Hn|]. apply nth_error_Some. simpl in Hn. congruence.
+          + rewrite <- Rn1 in Hr. destruct (inv_slot _ _ I1 _ _ _ Hr) as (tm & Hn & Hs & Hm). exists tm. split; [|auto].
+            rewrite nth_error_app1; [exact Hn|]. apply nth_error_Some. fold l1 in Hn. congruence.
         - intros j tm P. destruct (Pn _ _ P) as [[Hlt P']|[Hj Htm]].
-          + pose proof (E1 _ _ P') as Hne. destruct (inv_pend _ _ I1 _ _ P') as [Hs Hr]. simpl in *.
+          + pose proof (E1 _ _ P') as Hne. destruct (inv_pend _ _ I1 _ _ P') as [Hs Hr]. rewrite S1 in Hs. rewrite Rn1 in Hr.
             rewrite upd_other by auto. rewrite upd2_other by auto. auto.
           + subst. simpl. rewrite upd_same, upd2_same. auto.
         - intros j tm P. destruct (Pn _ _ P) as [[Hlt P']|[Hj Htm]].
-          + pose proof (inv_time _ _ I1 _ _ P') as T. unfold not_overdue in *. simpl in *. exact T.
+          + pose proof (inv_time _ _ I1 _ _ P') as T. unfold not_overdue in *. rewrite C1 in T. exact T.
           + subst. unfold not_overdue; simpl. destruct b; lia. }
-      assert (Am : armed (mkW (w_clock w) (upd (w_st w) m d) (l1 ++ [new])
-                              (upd2 (w_runner w) d m (Some (length l1)))) m =
-                   Some (w_clock w + ts_timeout (sdef c d))).
+      assert (Am : armed W m = Some (w_clock w + ts_timeout (sdef c d))).
       { unfold armed; simpl. rewrite upd_same, upd2_same, nth_error_app2, Nat.sub_diag by lia. reflexivity. }
-      assert (Ao : forall m', m' <> m ->
-                   armed (mkW (w_clock w) (upd (w_st w) m d) (l1 ++ [new])
-                              (upd2 (w_runner w) d m (Some (length l1)))) m' = armed w m').
+      assert (Ao : forall m', m' <> m -> armed W m' = armed w m').
       { intros m' Hne. rewrite <- (A1 _ Hne). unfold armed; simpl. rewrite upd_other by auto.
-        rewrite upd2_other by auto. destruct (w_runner w (w_st w m') m') as [j|] eqn:Hr; [|reflexivity].
-        destruct (inv_slot _ _ I1 _ _ _ Hr) as (tm & Hn & _). rewrite nth_error_app1; [reflexivity|].
-        apply nth_error_Some. simpl in Hn. congruence. }
+        rewrite upd2_other by auto. rewrite S1, Rn1. fold l1.
+        destruct (w_runner w (w_st w m') m') as [j|] eqn:Hr; [|reflexivity].
+        rewrite <- Rn1 in Hr. destruct (inv_slot _ _ I1 _ _ _ Hr) as (tm & Hn & _). rewrite nth_error_app1; [reflexivity|].
+        apply nth_error_Some. fold l1 in Hn. congruence. }
       split; [|split; [|split; [|split; [|split]]]].
       + split; [exact K1|split; [rewrite K2; simpl; lia|split; [exact Inew|]]].
         intros m'. rewrite K3. simpl. destruct (Nat.eqb_spec m' m) as [->|Hne].
@@ -316,40 +306,34 @@ Section Change.
       + intros m'. simpl. unfold upd. reflexivity.
       + rewrite Am. unfold period, timeout_of. apply Nat.ltb_lt in Ht. now rewrite Ht.
       + exact Ao.
-      + intros j tm P Hm. destruct (Pn _ _ P) as [[_ P']|[-> _]]; [|lia]. exfalso. exact (E1 _ _ P' Hm).
+      + intros j tm P Hm. destruct (Pn _ _ P) as [[_ P']|[-> _]]; [|exact L1]. exfalso. exact (E1 _ _ P' Hm).
     - (* no timeout *)
-      inversion E; subst its w'; clear E.
-      match goal with |- context [ck_run c nm k ?x] => set (k' := ck_run c nm k x) end.
-      assert (K : ck_ok k' = true /\ ck_last k' = w_clock w /\
-                  forall m', ck_open k' m' = if Nat.eqb m' m then Some (d, period c d (w_clock w)) else ck_open k m')
-        by exact (ck_change c nm k m s d (w_clock w) (armed w m) (ts_exit (sdef c s)) (ts_enter (sdef c d))
-                            Hok Hlast (Hopen m) Ta).
-      destruct K as (K1 & K2 & K3).
-      assert (Pn : forall j tm, pend (set_state w1 m d) j tm -> pend w1 j tm).
-      { intros j tm P. exact P. }
-      assert (Inew : Inv b (set_state w1 m d)).
+      inversion E; subst mk w'; clear E.
+      set (W := mkW (w_clock w) (upd (w_st w) m d) (w_timers w1) (w_runner w)).
+      assert (Pn : forall j tm, pend W j tm -> pend w1 j tm) by (intros j tm P; exact P).
+      assert (Inew : Inv b W).
       { constructor; simpl.
-        - intros s' m' j Hr. exact (inv_slot _ _ I1 _ _ _ Hr).
-        - intros j tm P. pose proof (E1 _ _ P) as Hne. destruct (inv_pend _ _ I1 _ _ P) as [Hs Hr]. simpl in *.
-          rewrite upd_other by auto. auto.
-        - intros j tm P. exact (inv_time _ _ I1 _ _ P). }
-      assert (Am : armed (set_state w1 m d) m = None).
+        - intros s' m' j Hr. rewrite <- Rn1 in Hr. exact (inv_slot _ _ I1 _ _ _ Hr).
+        - intros j tm P. pose proof (E1 _ _ P) as Hne. destruct (inv_pend _ _ I1 _ _ P) as [Hs Hr].
+          rewrite S1 in Hs. rewrite Rn1 in Hr. rewrite upd_other by auto. auto.
+        - intros j tm P. pose proof (inv_time _ _ I1 _ _ P) as T. unfold not_overdue in *. rewrite C1 in T. exact T. }
+      assert (Am : armed W m = None).
       { unfold armed; simpl. rewrite upd_same.
         destruct (w_runner w d m) as [j|] eqn:Hr; [|reflexivity].
-        destruct (nth_error l1 j) as [tm|] eqn:Hn; [|reflexivity].
+        destruct (nth_error (w_timers w1) j) as [tm|] eqn:Hn; [|reflexivity].
         destruct (is_pending tm) eqn:Hp; [|reflexivity]. exfalso.
-        destruct (inv_slot _ _ I1 _ _ _ Hr) as (tm' & Hn' & _ & Hm). simpl in Hn'. rewrite Hn in Hn'.
+        rewrite <- Rn1 in Hr. destruct (inv_slot _ _ I1 _ _ _ Hr) as (tm' & Hn' & _ & Hm). rewrite Hn in Hn'.
         inversion Hn'; subst tm'. apply (E1 j tm); [split; auto|exact Hm]. }
-      assert (Ao : forall m', m' <> m -> armed (set_state w1 m d) m' = armed w m').
-      { intros m' Hne. rewrite <- (A1 _ Hne). unfold armed; simpl. rewrite upd_other by auto. reflexivity. }
+      assert (Ao : forall m', m' <> m -> armed W m' = armed w m').
+      { intros m' Hne. rewrite <- (A1 _ Hne). unfold armed; simpl. rewrite upd_other by auto. rewrite S1, Rn1. reflexivity. }
       split; [|split; [|split; [|split; [|split]]]].
       + split; [exact K1|split; [rewrite K2; simpl; lia|split; [exact Inew|]]].
-        intros m'. rewrite K3. simpl. fold w1. destruct (Nat.eqb_spec m' m) as [->|Hne].
+        intros m'. rewrite K3. simpl. destruct (Nat.eqb_spec m' m) as [->|Hne].
         * rewrite upd_same, Am. unfold period, timeout_of. now rewrite Ht.
         * rewrite upd_other by auto. rewrite Ao by auto. rewrite Hopen. reflexivity.
       + split; [reflexivity|]. intros j tm P. left. apply P1, P.
       + intros m'. simpl. unfold upd. reflexivity.
-      + fold w1. rewrite Am. unfold period, timeout_of. now rewrite Ht.
+      + rewrite Am. unfold period, timeout_of. now rewrite Ht.
       + exact Ao.
       + intros j tm P Hm. exfalso. exact (E1 _ _ P Hm).
   Qed.
@@ -375,32 +359,258 @@ Proof.
   pose proof (inv_time _ _ I _ _ P) as T. unfold not_overdue in T. apply Nat.ltb_lt. lia.
 Qed.
 
+
+Lemma guard_sdef : forall c s, guard_C17 c = true -> tc_queued c = false ->
+  exit_acts_inert c s (sdef c s) = true.
+Proof.
+  intros c s G Q. unfold guard_C17 in G. rewrite Q in G. simpl in G. unfold sdef.
+  induction (tc_states c) as [|[k d] r IH]; simpl in *; [reflexivity|].
+  apply andb_true_iff in G as [G1 G2]. destruct (Nat.eqb_spec s k) as [->|_]; [exact G1|apply IH, G2].
+Qed.
+
+Definition nonmark (l : list titem) : Prop := forallb (fun it => negb (is_marker it)) l = true.
+Lemma nonmark_app a b : nonmark a -> nonmark b -> nonmark (a ++ b).
+Proof. unfold nonmark. intros A B. rewrite forallb_app, A, B. reflexivity. Qed.
+
 Section Run.
   Variable c : tcfg.
   Variable nm : nat.
+  Hypothesis G : guard_C17 c = true.
   Notation ckr := (ck_run c nm).
 
-  Lemma step_R : forall b w k m e its w' r,
-    R b w k -> step c w m e = (its, w', r) ->
-    R b w' (ckr k its) /\ nonew w w' /\
-    (forall m', m' <> m -> armed w' m' = armed w m' /\ w_st w' m' = w_st w m').
+  (* what is known of model.trigger as called from a callback *)
+  Definition rec_ok (rec : rec_t) : Prop :=
+    (forall b w k q m e its w' q' r, R b w k -> rec w q m e = (its, w', q', r) ->
+       R b w' (ckr k its) /\ nonew w w') /\
+    (forall w q m e its w' q' r, rec w q m e = (its, w', q', r) ->
+       tc_queued c = false -> inert c (w_st w m) e = true -> w' = w /\ nonmark its).
+
+  Lemma cbtrig_ok : forall rec, rec_ok rec -> rec_ok (cbtrig rec c).
   Proof.
-    intros b w k m e its w' r HR E. unfold step in E.
-    assert (Triv : forall l, forallb (fun it => negb (is_marker it)) l = true ->
-                   R b w (ckr k l) /\ nonew w w /\
-                   (forall m', m' <> m -> armed w m' = armed w m' /\ w_st w m' = w_st w m')).
-    { intros l Hl. rewrite ck_run_skip by exact Hl. split; [exact HR|split; [apply nonew_refl|auto]]. }
-    destruct (negb (event_known c e)); [inversion E; subst; apply (Triv []); reflexivity|].
-    destruct (cands c e (w_st w m)) as [|t0 l0].
-    - destruct (tc_ignore c); [inversion E; subst; apply (Triv []); reflexivity|].
-      destruct (tc_onexc c) as [|h hs]; inversion E; subst; [apply (Triv []); reflexivity|].
-      apply Triv. apply (skip_map (fun h0 => COnExc h0 m 0 (w_clock w')) (h :: hs)). reflexivity.
-    - destruct (first_ok (t0 :: l0)) as [t|]; [|inversion E; subst; apply (Triv []); reflexivity].
-      destruct (tt_dst t) as [d|]; [|inversion E; subst; apply (Triv []); reflexivity].
-      destruct (change_state c w m d) as [its0 w0] eqn:Ec. inversion E; subst its0 w0 r; clear E.
-      destruct (change_state_R c nm _ _ _ _ _ _ _ HR Ec) as (A & B & C & _ & D & _).
-      split; [exact A|split; [exact B|]]. intros m' Hne. split; [apply D; exact Hne|].
-      rewrite C. destruct (Nat.eqb_spec m' m); [contradiction|reflexivity].
+    intros rec [H1 H2]. unfold cbtrig. split.
+    - intros b w k q m e its w' q' r HR E. destruct (tc_queued c); [|eapply H1; eauto].
+      destruct (event_known c e); inversion E; subst; simpl; (split; [exact HR|apply nonew_refl]).
+    - intros w q m e its w' q' r E Q. rewrite Q in E. eapply H2; eauto.
+  Qed.
+
+  Lemma cbtrig_queued : forall rec w q m e its w' q' r,
+    tc_queued c = true -> cbtrig rec c w q m e = (its, w', q', r) -> w' = w /\ its = [].
+  Proof.
+    intros rec w q m e its w' q' r Q E. unfold cbtrig in E. rewrite Q in E.
+    destruct (event_known c e); inversion E; auto.
+  Qed.
+
+  Definition act_inert (s : tstate) (cb : ecb) : bool :=
+    match ec_act cb with None => true | Some e => inert c s e end.
+
+  Lemma ecb_act_R : forall rec b w k q m cb its w' q',
+    rec_ok rec -> R b w k -> ecb_act rec c w q m cb = (its, w', q') -> R b w' (ckr k its) /\ nonew w w'.
+  Proof.
+    intros rec b w k q m cb its w' q' OK HR E. unfold ecb_act in E. destruct (ec_act cb) as [e|].
+    - destruct (cbtrig rec c w q m e) as [[[its0 w0] q0] r] eqn:Ec. inversion E; subst its w' q'; clear E.
+      destruct (proj1 (cbtrig_ok _ OK) _ _ _ _ _ _ _ _ _ _ HR Ec) as [A B].
+      rewrite ck_run_app. simpl. auto.
+    - inversion E; subst. simpl. split; [exact HR|apply nonew_refl].
+  Qed.
+
+  Lemma ecb_act_still : forall rec w q m cb its w' q',
+    rec_ok rec -> (tc_queued c = true \/ act_inert (w_st w m) cb = true) ->
+    ecb_act rec c w q m cb = (its, w', q') -> w' = w /\ nonmark its.
+  Proof.
+    intros rec w q m cb its w' q' OK H E. unfold ecb_act, act_inert in *. destruct (ec_act cb) as [e|].
+    - destruct (cbtrig rec c w q m e) as [[[its0 w0] q0] r] eqn:Ec. inversion E; subst its w' q'; clear E.
+      destruct (tc_queued c) eqn:Q.
+      + destruct (cbtrig_queued _ _ _ _ _ _ _ _ _ Q Ec) as [-> ->]. split; reflexivity.
+      + destruct H as [H|H]; [discriminate|].
+        destruct (proj2 (cbtrig_ok _ OK) _ _ _ _ _ _ _ _ Ec Q H) as [-> N]. split; [reflexivity|].
+        apply nonmark_app; [exact N|reflexivity].
+    - inversion E; subst. split; reflexivity.
+  Qed.
+
+  Section Cbs.
+    Variable rec : rec_t.
+    Hypothesis OK : rec_ok rec.
+    Variable mk : mk_t.
+    Hypothesis MK : forall a b0 c0 d, is_marker (mk a b0 c0 d) = false.
+
+    Lemma run_cbs_sync_R : forall b m cbs w k q its w' q',
+      R b w k -> run_cbs_sync rec c mk w q m cbs = (its, w', q') -> R b w' (ckr k its) /\ nonew w w'.
+    Proof.
+      intros b m cbs. induction cbs as [|cb r IH]; intros w k q its w' q' HR E; simpl in E.
+      - inversion E; subst. simpl. split; [exact HR|apply nonew_refl].
+      - destruct (ecb_act rec c w q m cb) as [[ia w1] q1] eqn:Ea.
+        destruct (run_cbs_sync rec c mk w1 q1 m r) as [[ir w2] q2] eqn:Er. inversion E; subst its w' q'; clear E.
+        destruct (ecb_act_R _ _ _ _ _ _ _ _ _ _ OK HR Ea) as [A B].
+        destruct (IH _ _ _ _ _ _ A Er) as [A2 B2].
+        change (ckr k (mk (ec_id cb) m (w_st w m) (w_clock w) :: ia ++ ir))
+          with (ckr (ck_step c nm k (mk (ec_id cb) m (w_st w m) (w_clock w))) (ia ++ ir)).
+        assert (S0 : ck_step c nm k (mk (ec_id cb) m (w_st w m) (w_clock w)) = k).
+        { pose proof (MK (ec_id cb) m (w_st w m) (w_clock w)) as M. destruct (mk _ _ _ _); simpl in M; try discriminate; reflexivity. }
+        rewrite S0, ck_run_app. split; [exact A2|eapply nonew_trans; eauto].
+    Qed.
+
+    Lemma run_acts_R : forall b m cbs w k q its w' q',
+      R b w k -> run_acts rec c w q m cbs = (its, w', q') -> R b w' (ckr k its) /\ nonew w w'.
+    Proof.
+      intros b m cbs. induction cbs as [|cb r IH]; intros w k q its w' q' HR E; simpl in E.
+      - inversion E; subst. simpl. split; [exact HR|apply nonew_refl].
+      - destruct (ecb_act rec c w q m cb) as [[ia w1] q1] eqn:Ea.
+        destruct (run_acts rec c w1 q1 m r) as [[ir w2] q2] eqn:Er. inversion E; subst its w' q'; clear E.
+        destruct (ecb_act_R _ _ _ _ _ _ _ _ _ _ OK HR Ea) as [A B].
+        destruct (IH _ _ _ _ _ _ A Er) as [A2 B2].
+        rewrite ck_run_app. split; [exact A2|eapply nonew_trans; eauto].
+    Qed.
+
+    Lemma run_cbs_R : forall b m cbs w k q its w' q',
+      R b w k -> run_cbs rec c mk w q m cbs = (its, w', q') -> R b w' (ckr k its) /\ nonew w w'.
+    Proof.
+      intros b m cbs w k q its w' q' HR E. unfold run_cbs in E. destruct (tc_async c).
+      - destruct (run_acts rec c w q m cbs) as [[ia w1] q1] eqn:Ea. inversion E; subst its w' q'; clear E.
+        rewrite ck_run_app.
+        rewrite (ck_run_skip c nm (map (fun cb => mk (ec_id cb) m (w_st w m) (w_clock w)) cbs) k)
+          by (apply skip_map; intros; apply MK).
+        eapply run_acts_R; eauto.
+      - eapply run_cbs_sync_R; eauto.
+    Qed.
+
+    (* callbacks whose triggers are deferred or inert leave the world as it is *)
+    Lemma run_cbs_sync_still : forall m cbs w q its w' q',
+      (tc_queued c = true \/ forallb (act_inert (w_st w m)) cbs = true) ->
+      run_cbs_sync rec c mk w q m cbs = (its, w', q') -> w' = w /\ nonmark its.
+    Proof.
+      intros m cbs. induction cbs as [|cb r IH]; intros w q its w' q' H E; simpl in E.
+      - inversion E; subst. split; reflexivity.
+      - destruct (ecb_act rec c w q m cb) as [[ia w1] q1] eqn:Ea.
+        destruct (run_cbs_sync rec c mk w1 q1 m r) as [[ir w2] q2] eqn:Er. inversion E; subst its w' q'; clear E.
+        assert (H1 : tc_queued c = true \/ act_inert (w_st w m) cb = true).
+        { destruct H as [H|H]; [left; exact H|right]. simpl in H. apply andb_true_iff in H. tauto. }
+        destruct (ecb_act_still _ _ _ _ _ _ _ _ OK H1 Ea) as [-> N1].
+        assert (H2 : tc_queued c = true \/ forallb (act_inert (w_st w m)) r = true).
+        { destruct H as [H|H]; [left; exact H|right]. simpl in H. apply andb_true_iff in H. tauto. }
+        destruct (IH _ _ _ _ _ H2 Er) as [-> N2]. split; [reflexivity|].
+        unfold nonmark. simpl. rewrite MK. simpl. apply nonmark_app; assumption.
+    Qed.
+
+    Lemma run_acts_still : forall m cbs w q its w' q',
+      (tc_queued c = true \/ forallb (act_inert (w_st w m)) cbs = true) ->
+      run_acts rec c w q m cbs = (its, w', q') -> w' = w /\ nonmark its.
+    Proof.
+      intros m cbs. induction cbs as [|cb r IH]; intros w q its w' q' H E; simpl in E.
+      - inversion E; subst. split; reflexivity.
+      - destruct (ecb_act rec c w q m cb) as [[ia w1] q1] eqn:Ea.
+        destruct (run_acts rec c w1 q1 m r) as [[ir w2] q2] eqn:Er. inversion E; subst its w' q'; clear E.
+        assert (H1 : tc_queued c = true \/ act_inert (w_st w m) cb = true).
+        { destruct H as [H|H]; [left; exact H|right]. simpl in H. apply andb_true_iff in H. tauto. }
+        destruct (ecb_act_still _ _ _ _ _ _ _ _ OK H1 Ea) as [-> N1].
+        assert (H2 : tc_queued c = true \/ forallb (act_inert (w_st w m)) r = true).
+        { destruct H as [H|H]; [left; exact H|right]. simpl in H. apply andb_true_iff in H. tauto. }
+        destruct (IH _ _ _ _ _ H2 Er) as [-> N2]. split; [reflexivity|apply nonmark_app; assumption].
+    Qed.
+
+    Lemma run_cbs_still : forall m cbs w q its w' q',
+      (tc_queued c = true \/ forallb (act_inert (w_st w m)) cbs = true) ->
+      run_cbs rec c mk w q m cbs = (its, w', q') -> w' = w /\ nonmark its.
+    Proof.
+      intros m cbs w q its w' q' H E. unfold run_cbs in E. destruct (tc_async c).
+      - destruct (run_acts rec c w q m cbs) as [[ia w1] q1] eqn:Ea. inversion E; subst its w' q'; clear E.
+        destruct (run_acts_still _ _ _ _ _ _ _ H Ea) as [-> N]. split; [reflexivity|].
+        apply nonmark_app; [apply skip_map; intros; apply MK|exact N].
+      - eapply run_cbs_sync_still; eauto.
+    Qed.
+  End Cbs.
+
+  Lemma change_state_R : forall rec b w k q m d its w' q',
+    rec_ok rec -> R b w k -> change_state rec c w q m d = (its, w', q') ->
+    R b w' (ckr k its) /\ nonew w w'.
+  Proof.
+    intros rec b w k q m d its w' q' OK HR E. unfold change_state in E.
+    set (s := w_st w m) in *. set (w0 := cancel_slot w s m) in *.
+    destruct (run_cbs rec c CExit w0 q m (ts_exit (sdef c s))) as [[ix w1] q1] eqn:Ex.
+    destruct (set_and_start c w1 m d) as [mk w2] eqn:Es.
+    destruct (run_cbs rec c CEnter w2 q1 m (ts_enter (sdef c d))) as [[ie w3] q3] eqn:En.
+    inversion E; subst its w' q'; clear E.
+    assert (Hs0 : w_st w0 m = s).
+    { unfold w0. destruct (cancel_slot_fields w s m) as (_ & S1 & _). rewrite S1. reflexivity. }
+    assert (Hg : tc_queued c = true \/ forallb (act_inert (w_st w0 m)) (ts_exit (sdef c s)) = true).
+    { destruct (tc_queued c) eqn:Q; [left; reflexivity|right]. rewrite Hs0. exact (guard_sdef c s G Q). }
+    destruct (run_cbs_still rec OK CExit (fun _ _ _ _ => eq_refl) _ _ _ _ _ _ _ Hg Ex) as [-> Nx].
+    destruct (switch_R c nm _ _ _ _ _ _ _ HR Es) as (A & B & _).
+    destruct (run_cbs_R rec OK CEnter (fun _ _ _ _ => eq_refl) _ _ _ _ _ _ _ _ _ A En) as [A3 B3].
+    rewrite ck_run_app, (ck_run_skip c nm ix) by exact Nx. rewrite ck_run_app.
+    split; [exact A3|eapply nonew_trans; eauto].
+  Qed.
+
+  Lemma step_ok : forall rec, rec_ok rec -> rec_ok (step rec c).
+  Proof.
+    intros rec OK. split.
+    - intros b w k q m e its w' q' r HR E. unfold step in E.
+      assert (Triv : forall l, nonmark l -> R b w (ckr k l) /\ nonew w w).
+      { intros l Hl. rewrite ck_run_skip by exact Hl. split; [exact HR|apply nonew_refl]. }
+      destruct (negb (event_known c e)); [inversion E; subst; apply (Triv []); reflexivity|].
+      destruct (cands c e (w_st w m)) as [|t0 l0].
+      + destruct (tc_ignore c); [inversion E; subst; apply (Triv []); reflexivity|].
+        destruct (tc_onexc c) as [|h hs]; inversion E; subst; [apply (Triv []); reflexivity|].
+        apply Triv. apply (skip_map (fun h0 => COnExc h0 m 0 (w_clock w')) (h :: hs)). reflexivity.
+      + destruct (first_ok (t0 :: l0)) as [t|]; [|inversion E; subst; apply (Triv []); reflexivity].
+        destruct (tt_dst t) as [d|]; [|inversion E; subst; apply (Triv []); reflexivity].
+        destruct (change_state rec c w q m d) as [[its0 w0] q0] eqn:Ec. inversion E; subst its0 w0 q0 r; clear E.
+        eapply change_state_R; eauto.
+    - intros w q m e its w' q' r E _ Hi. unfold step in E. unfold inert in Hi.
+      destruct (negb (event_known c e)); [inversion E; subst; split; reflexivity|]. simpl in Hi.
+      destruct (cands c e (w_st w m)) as [|t0 l0].
+      + destruct (tc_ignore c); [inversion E; subst; split; reflexivity|].
+        destruct (tc_onexc c) as [|h hs]; inversion E; subst; (split; [reflexivity|]); [reflexivity|].
+        apply (skip_map (fun h0 => COnExc h0 m 0 (w_clock w')) (h :: hs)). reflexivity.
+      + destruct (first_ok (t0 :: l0)) as [t|]; [|inversion E; subst; split; reflexivity].
+        destruct (tt_dst t) as [d|]; [discriminate|inversion E; subst; split; reflexivity].
+  Qed.
+
+  Lemma trig_ok : forall fuel, rec_ok (trig fuel c).
+  Proof.
+    induction fuel as [|f IH]; simpl.
+    - split.
+      + intros b w k q m e its w' q' r HR E. inversion E; subst. simpl. split; [exact HR|apply nonew_refl].
+      + intros w q m e its w' q' r E _ _. inversion E; subst. split; reflexivity.
+    - apply step_ok, IH.
+  Qed.
+
+  Lemma drain_S : forall f w q, drain (S f) c w q =
+    match q with
+    | [] => ([], w, None)
+    | (m, e) :: q0 =>
+        let '(its, w1, q1, r) := step (trig 0 c) c w q0 m e in
+        if is_exn r then (its, w1, Some r)
+        else let '(its2, w2, x) := drain f c w1 q1 in (its ++ its2, w2, x)
+    end.
+  Proof. reflexivity. Qed.
+
+  Lemma drain_R : forall fuel b w k q its w' x,
+    R b w k -> drain fuel c w q = (its, w', x) -> R b w' (ckr k its) /\ nonew w w'.
+  Proof.
+    induction fuel as [|f IH]; intros b w k q its w' x HR E.
+    - simpl in E. inversion E; subst. simpl. split; [exact HR|apply nonew_refl].
+    - rewrite drain_S in E.
+      destruct q as [|[m e] q0]; [inversion E; subst; simpl; split; [exact HR|apply nonew_refl]|].
+      destruct (step (trig 0 c) c w q0 m e) as [[[its1 w1] q1] r] eqn:Es.
+      destruct (proj1 (step_ok _ (trig_ok 0)) _ _ _ _ _ _ _ _ _ _ HR Es) as [A B].
+      destruct (is_exn r); [inversion E; subst; auto|].
+      destruct (drain f c w1 q1) as [[its2 w2] x2] eqn:Ed. inversion E; subst its w' x; clear E.
+      destruct (IH _ _ _ _ _ _ _ A Ed) as [A2 B2]. rewrite ck_run_app.
+      split; [exact A2|eapply nonew_trans; eauto].
+  Qed.
+
+  Lemma top_trig_R : forall b w k m e its w' r,
+    R b w k -> top_trig c w m e = (its, w', r) -> R b w' (ckr k its) /\ nonew w w'.
+  Proof.
+    intros b w k m e its w' r HR E. unfold top_trig in E. destruct (tc_queued c).
+    - destruct (step (trig 0 c) c w [] m e) as [[[its1 w1] q1] r1] eqn:Es.
+      destruct (proj1 (step_ok _ (trig_ok 0)) _ _ _ _ _ _ _ _ _ _ HR Es) as [A B].
+      destruct (is_exn r1); [inversion E; subst; auto|].
+      destruct (drain DRAIN_FUEL c w1 q1) as [[its2 w2] x2] eqn:Ed. inversion E; subst its w' r; clear E.
+      destruct (drain_R _ _ _ _ _ _ _ _ A Ed) as [A2 B2]. rewrite ck_run_app.
+      split; [exact A2|eapply nonew_trans; eauto].
+    - destruct (trig FUEL c w [] m e) as [[[its1 w1] q1] r1] eqn:Es. inversion E; subst its w' r; clear E.
+      exact (proj1 (trig_ok FUEL) _ _ _ _ _ _ _ _ _ _ HR Es).
   Qed.
 
   Lemma do_act_R : forall b w k m cb its w',
@@ -408,9 +618,9 @@ Section Run.
   Proof.
     intros b w k m cb its w' HR E. unfold do_act in E.
     destruct (oc_act cb) as [[who e]|].
-    - destruct (step c w (match who with Some k0 => k0 | None => m end) e) as [[its0 w0] r] eqn:Es.
+    - destruct (top_trig c w (match who with Some k0 => k0 | None => m end) e) as [[its0 w0] r] eqn:Es.
       inversion E; subst its w'; clear E.
-      destruct (step_R _ _ _ _ _ _ _ _ HR Es) as (A & B & _).
+      destruct (top_trig_R _ _ _ _ _ _ _ _ HR Es) as (A & B).
       rewrite ck_run_app. simpl. auto.
     - inversion E; subst. simpl. split; [exact HR|apply nonew_refl].
   Qed.
@@ -572,12 +782,12 @@ Section Run.
     R true w k -> R true (snd (do_op c w o)) (ckr k (fst (fst (do_op c w o)))).
   Proof.
     intros w k o HR. destruct o as [m e|dt]; simpl.
-    - destruct (step c w m e) as [[its w'] r] eqn:Es. simpl.
+    - destruct (top_trig c w m e) as [[its w'] r] eqn:Es. simpl.
       assert (R0 : R true w (ck_step c nm k (TUser m e (w_clock w)))).
       { pose proof (none_overdue_R nm _ _ HR) as N. destruct HR as (A & B & I & D).
         split; [|split; [|split]]; simpl; auto.
         rewrite A, N. replace (ck_last k <=? w_clock w) with true by (symmetry; apply Nat.leb_le; lia). reflexivity. }
-      exact (proj1 (step_R _ _ _ _ _ _ _ _ R0 Es)).
+      exact (proj1 (top_trig_R _ _ _ _ _ _ _ _ R0 Es)).
     - destruct (advance c w dt) as [its w'] eqn:Ea. simpl.
       exact (proj1 (advance_R _ _ _ _ _ HR Ea)).
   Qed.
@@ -600,31 +810,33 @@ Proof.
 Qed.
 
 (* the property, for every configuration, number of models and history *)
-Lemma timed_spec : forall c nm s0 h,
+Lemma timed_spec : forall c nm s0 h, guard_C17 c = true ->
   spec_C17 c nm s0 (run_trace c (init_world s0) h) (w_clock (run_world c (init_world s0) h)) = true.
 Proof.
-  intros c nm s0 h. pose proof (run_R c nm h _ _ (R_init s0)) as HR. unfold spec_C17, ck_end.
+  intros c nm s0 h G. pose proof (run_R c nm G h _ _ (R_init s0)) as HR. unfold spec_C17, ck_end.
   pose proof (none_overdue_R nm _ _ HR) as N. destruct HR as (A & B & _ & _).
   rewrite A, N. replace (_ <=? _) with true by (symmetry; apply Nat.leb_le; exact B). reflexivity.
 Qed.
 
-Lemma inv_reachable : forall c s0 h, Inv true (run_world c (init_world s0) h).
-Proof. intros c s0 h. exact (proj1 (proj2 (proj2 (run_R c 0 h _ _ (R_init s0))))). Qed.
+Lemma inv_reachable : forall c s0 h, guard_C17 c = true -> Inv true (run_world c (init_world s0) h).
+Proof. intros c s0 h G. exact (proj1 (proj2 (proj2 (run_R c 0 G h _ _ (R_init s0))))). Qed.
 
-(* ----------------------------------------------------------------- step-local readings *)
+
+(* ----------------------------------------------------------------- local readings: one state change *)
 Lemma R_of_inv : forall b w, Inv b w -> R b w (mkCk true 0 (fun m => Some (w_st w m, armed w m))).
 Proof. intros b w I. split; [reflexivity|split; [simpl; lia|split; [exact I|intros m; reflexivity]]]. Qed.
 
-Lemma change_state_local : forall b c w m d, Inv b w ->
-  let w' := snd (change_state c w m d) in
+Lemma switch_local : forall b c w m d, Inv b w ->
+  let w' := snd (switch c w m d) in
   Inv b w' /\
   armed w' m = period c d (w_clock w) /\
   (forall m', m' <> m -> armed w' m' = armed w m' /\ w_st w' m' = w_st w m') /\
   (forall j tm, pend w' j tm -> tm_model tm = m ->
      j = length (w_timers w) /\ tm_state tm = d /\ tm_deadline tm = w_clock w + timeout_of c d).
 Proof.
-  intros b c w m d I w'. destruct (change_state c w m d) as [its w1] eqn:E. unfold w'; simpl.
-  destruct (change_state_R c 0 _ _ _ _ _ _ _ (R_of_inv _ _ I) E) as ((_ & _ & I1 & _) & _ & St & Am & Ao & Pn).
+  intros b c w m d I w'. unfold w', switch.
+  destruct (set_and_start c (cancel_slot w (w_st w m) m) m d) as [mk w1] eqn:E. simpl.
+  destruct (switch_R c 0 _ _ _ _ _ _ _ (R_of_inv _ _ I) E) as ((_ & _ & I1 & _) & _ & St & Am & Ao & Pn).
   split; [exact I1|split; [exact Am|split]].
   - intros m' Hne. split; [apply Ao, Hne|]. rewrite St. destruct (Nat.eqb_spec m' m); [contradiction|reflexivity].
   - intros j tm P Hm. split; [exact (Pn _ _ P Hm)|].
@@ -633,48 +845,26 @@ Proof.
     destruct (0 <? timeout_of c d); [|discriminate]. inversion Ha. auto.
 Qed.
 
-Lemma step_cases : forall c w m e t,
-  event_known c e = true -> first_ok (cands c e (w_st w m)) = Some t ->
-  step c w m e = match tt_dst t with
-                 | None => ([], w, RTrue)
-                 | Some d => (fst (change_state c w m d), snd (change_state c w m d), RTrue)
-                 end.
+Lemma restart_local : forall b c w m d, Inv b w ->
+  armed (snd (switch c w m d)) m = period c d (w_clock w).
+Proof. intros b c w m d I. exact (proj1 (proj2 (switch_local b c w m d I))). Qed.
+
+Lemma internal_local : forall rec c w q m e t,
+  event_known c e = true -> first_ok (cands c e (w_st w m)) = Some t -> tt_dst t = None ->
+  step rec c w q m e = ([], w, q, RTrue).
 Proof.
-  intros c w m e t Hk Hf. unfold step. rewrite Hk.
-  destruct (cands c e (w_st w m)) as [|t0 l0]; [discriminate|]. rewrite Hf. cbv beta iota delta [negb].
-  destruct (tt_dst t) as [d|]; [|reflexivity]. destruct (change_state c w m d); reflexivity.
+  intros rec c w q m e t Hk Hf Hd. unfold step. rewrite Hk.
+  destruct (cands c e (w_st w m)) as [|t0 l0]; [discriminate|]. rewrite Hf, Hd. reflexivity.
 Qed.
 
-Lemma restart_local : forall b c w m e t, Inv b w ->
-  event_known c e = true -> first_ok (cands c e (w_st w m)) = Some t ->
-  armed (snd (fst (step c w m e))) m =
-    match tt_dst t with Some d => period c d (w_clock w) | None => armed w m end.
-Proof.
-  intros b c w m e t I Hk Hf. rewrite (step_cases _ _ _ _ _ Hk Hf). destruct (tt_dst t) as [d|]; simpl; [|reflexivity].
-  exact (proj1 (proj2 (change_state_local b c w m d I))).
-Qed.
-
-Lemma never_if_left_local : forall b c w m e t d, Inv b w ->
-  event_known c e = true -> first_ok (cands c e (w_st w m)) = Some t -> tt_dst t = Some d ->
-  forall j tm, pend (snd (fst (step c w m e))) j tm -> tm_model tm = m ->
+Lemma never_if_left_local : forall b c w m d, Inv b w ->
+  forall j tm, pend (snd (switch c w m d)) j tm -> tm_model tm = m ->
     j = length (w_timers w) /\ tm_state tm = d /\ tm_deadline tm = w_clock w + timeout_of c d.
-Proof.
-  intros b c w m e t d I Hk Hf Hd. rewrite (step_cases _ _ _ _ _ Hk Hf), Hd. simpl.
-  exact (proj2 (proj2 (proj2 (change_state_local b c w m d I)))).
-Qed.
+Proof. intros b c w m d I. exact (proj2 (proj2 (proj2 (switch_local b c w m d I)))). Qed.
 
-Lemma per_model_local : forall b c w m e m', Inv b w -> m' <> m ->
-  armed (snd (fst (step c w m e))) m' = armed w m' /\ w_st (snd (fst (step c w m e))) m' = w_st w m'.
-Proof.
-  intros b c w m e m' I Hne. destruct (step c w m e) as [[its w'] r] eqn:E. simpl.
-  exact (proj2 (proj2 (step_R c 0 _ _ _ _ _ _ _ _ (R_of_inv _ _ I) E)) m' Hne).
-Qed.
-
-Lemma step_inv : forall b c w m e, Inv b w -> Inv b (snd (fst (step c w m e))).
-Proof.
-  intros b c w m e I. destruct (step c w m e) as [[its w'] r] eqn:E. simpl.
-  exact (proj1 (proj2 (proj2 (proj1 (step_R c 0 _ _ _ _ _ _ _ _ (R_of_inv _ _ I) E))))).
-Qed.
+Lemma per_model_local : forall b c w m d m', Inv b w -> m' <> m ->
+  armed (snd (switch c w m d)) m' = armed w m' /\ w_st (snd (switch c w m d)) m' = w_st w m'.
+Proof. intros b c w m d m' I Hne. exact (proj1 (proj2 (proj2 (switch_local b c w m d I))) m' Hne). Qed.
 
 (* ----------------------------------------------------------------- construction *)
 Lemma build_spec : forall l,
@@ -685,49 +875,106 @@ Proof.
 Qed.
 
 (* ----------------------------------------------------------------- the handler's own items *)
+Definition hkf (l : list titem) : Prop := forallb (fun it => negb (handler_kind it)) l = true.
+Lemma hkf_app a b : hkf a -> hkf b -> hkf (a ++ b).
+Proof. unfold hkf. intros A B. rewrite forallb_app, A, B. reflexivity. Qed.
+Lemma hkf_map {A} (g : A -> titem) (l : list A) : (forall a, handler_kind (g a) = false) -> hkf (map g l).
+Proof. intros H. unfold hkf. induction l; simpl; [reflexivity|]. now rewrite H, IHl. Qed.
 Lemma filter_none {A} (f : A -> bool) (l : list A) : forallb (fun a => negb (f a)) l = true -> filter f l = [].
 Proof.
   induction l as [|a r IH]; simpl; intros H; [reflexivity|]. apply andb_true_iff in H as [H1 H2].
   destruct (f a); [discriminate|auto].
 Qed.
-Lemma forallb_map_const {A B} (g : A -> B) (p : B -> bool) (l : list A) :
-  (forall a, p (g a) = true) -> forallb p (map g l) = true.
-Proof. intros H. induction l; simpl; [reflexivity|]. now rewrite H, IHl. Qed.
 
-Definition quiet (it : titem) : bool := negb (handler_kind it) && negb (is_cres it).
+Definition rec_hk (rec : rec_t) : Prop := forall w q m e, hkf (fst (fst (fst (rec w q m e)))).
 
-Lemma step_quiet : forall c w m e, forallb quiet (fst (fst (step c w m e))) = true.
-Proof.
-  intros c w m e. unfold step. destruct (negb (event_known c e)); [reflexivity|].
-  destruct (cands c e (w_st w m)) as [|t0 l0].
-  - destruct (tc_ignore c); [reflexivity|]. destruct (tc_onexc c) as [|h hs]; [reflexivity|].
-    apply (forallb_map_const (fun h0 => COnExc h0 m 0 (w_clock w)) quiet (h :: hs)). reflexivity.
-  - destruct (first_ok (t0 :: l0)) as [t|]; [|reflexivity]. destruct (tt_dst t) as [d|]; [|reflexivity].
-    unfold change_state, do_exit, do_enter. simpl. rewrite forallb_app. simpl.
-    rewrite !forallb_map_const by reflexivity. reflexivity.
-Qed.
+Section Hk.
+  Variable c : tcfg.
 
-Lemma acts_async_items : forall c m cbs w,
-  filter handler_kind (fst (acts_async c w m cbs)) = [] /\
-  length (filter is_cres (fst (acts_async c w m cbs))) = length (filter has_act cbs).
-Proof.
-  intros c m cbs. induction cbs as [|cb r IH]; intros w; simpl; [split; reflexivity|].
-  destruct (do_act c w m cb) as [ia w1] eqn:Ea. destruct (acts_async c w1 m r) as [ir w2] eqn:Er. simpl.
-  specialize (IH w1). rewrite Er in IH. simpl in IH. destruct IH as [IH1 IH2].
-  rewrite !filter_app, IH1, app_length, IH2. unfold do_act, has_act in *.
-  destruct (oc_act cb) as [[who e]|].
-  - pose proof (step_quiet c w (match who with Some k => k | None => m end) e) as Q.
-    destruct (step c w (match who with Some k => k | None => m end) e) as [[its0 w0] r0]. simpl in Q.
-    inversion Ea; subst ia w1. rewrite !filter_app. simpl.
-    assert (Q1 : filter handler_kind its0 = []).
-    { apply filter_none. eapply forallb_forall. intros x Hx. eapply forallb_forall in Q; [|exact Hx].
-      unfold quiet in Q. apply andb_true_iff in Q as [Q _]. exact Q. }
-    assert (Q2 : filter is_cres its0 = []).
-    { apply filter_none. eapply forallb_forall. intros x Hx. eapply forallb_forall in Q; [|exact Hx].
-      unfold quiet in Q. apply andb_true_iff in Q as [_ Q]. exact Q. }
-    rewrite Q1, Q2. simpl. split; reflexivity.
-  - inversion Ea; subst. simpl. split; reflexivity.
-Qed.
+  Lemma cbtrig_hk : forall rec, rec_hk rec -> rec_hk (cbtrig rec c).
+  Proof.
+    intros rec H w q m e. unfold cbtrig. destruct (tc_queued c); [|apply H].
+    destruct (event_known c e); reflexivity.
+  Qed.
+
+  Lemma ecb_act_hk : forall rec w q m cb, rec_hk rec -> hkf (fst (fst (ecb_act rec c w q m cb))).
+  Proof.
+    intros rec w q m cb H. unfold ecb_act. destruct (ec_act cb) as [e|]; [|reflexivity].
+    pose proof (cbtrig_hk _ H w q m e) as X. destruct (cbtrig rec c w q m e) as [[[its w'] q'] r]. simpl in *.
+    apply hkf_app; [exact X|reflexivity].
+  Qed.
+
+  Lemma run_cbs_hk : forall rec mk m cbs w q, rec_hk rec ->
+    (forall a b0 c0 d, handler_kind (mk a b0 c0 d) = false) ->
+    hkf (fst (fst (run_cbs rec c mk w q m cbs))).
+  Proof.
+    intros rec mk m cbs w q H MK. unfold run_cbs. destruct (tc_async c).
+    - assert (X : forall cbs w q, hkf (fst (fst (run_acts rec c w q m cbs)))).
+      { clear cbs w q. induction cbs as [|cb r IH]; intros w q; simpl; [reflexivity|].
+        pose proof (ecb_act_hk rec w q m cb H) as A. destruct (ecb_act rec c w q m cb) as [[ia w1] q1].
+        specialize (IH w1 q1). destruct (run_acts rec c w1 q1 m r) as [[ir w2] q2]. simpl in *.
+        apply hkf_app; assumption. }
+      specialize (X cbs w q). destruct (run_acts rec c w q m cbs) as [[ia w1] q1]. simpl in *.
+      apply hkf_app; [apply hkf_map; intros; apply MK|exact X].
+    - revert w q. induction cbs as [|cb r IH]; intros w q; simpl; [reflexivity|].
+      pose proof (ecb_act_hk rec w q m cb H) as A. destruct (ecb_act rec c w q m cb) as [[ia w1] q1].
+      specialize (IH w1 q1). destruct (run_cbs_sync rec c mk w1 q1 m r) as [[ir w2] q2]. simpl in *.
+      unfold hkf. simpl. rewrite MK. simpl. apply hkf_app; assumption.
+  Qed.
+
+  Lemma step_hk : forall rec, rec_hk rec -> rec_hk (step rec c).
+  Proof.
+    intros rec H w q m e. unfold step. destruct (negb (event_known c e)); [reflexivity|].
+    destruct (cands c e (w_st w m)) as [|t0 l0].
+    - destruct (tc_ignore c); [reflexivity|]. destruct (tc_onexc c) as [|h hs]; [reflexivity|].
+      apply (hkf_map (fun h0 => COnExc h0 m 0 (w_clock w)) (h :: hs)). reflexivity.
+    - destruct (first_ok (t0 :: l0)) as [t|]; [|reflexivity]. destruct (tt_dst t) as [d|]; [|reflexivity].
+      unfold change_state.
+      pose proof (run_cbs_hk rec CExit m (ts_exit (sdef c (w_st w m))) (cancel_slot w (w_st w m) m) q H
+                             (fun _ _ _ _ => eq_refl)) as X.
+      destruct (run_cbs rec c CExit (cancel_slot w (w_st w m) m) q m (ts_exit (sdef c (w_st w m)))) as [[ix w1] q1].
+      destruct (set_and_start c w1 m d) as [mk w2] eqn:Es.
+      pose proof (run_cbs_hk rec CEnter m (ts_enter (sdef c d)) w2 q1 H (fun _ _ _ _ => eq_refl)) as Y.
+      destruct (run_cbs rec c CEnter w2 q1 m (ts_enter (sdef c d))) as [[ie w3] q3]. simpl in *.
+      apply hkf_app; [exact X|apply hkf_app; [|exact Y]].
+      unfold set_and_start in Es. inversion Es. reflexivity.
+  Qed.
+
+  Lemma trig_hk : forall fuel, rec_hk (trig fuel c).
+  Proof. induction fuel as [|f IH]; simpl; [intros w q m e; reflexivity|apply step_hk, IH]. Qed.
+
+  Lemma drain_hk : forall fuel w q, hkf (fst (fst (drain fuel c w q))).
+  Proof.
+    induction fuel as [|f IH]; intros w q; [reflexivity|]. rewrite drain_S.
+    destruct q as [|[m e] q0]; [reflexivity|].
+    pose proof (step_hk _ (trig_hk 0) w q0 m e) as X.
+    destruct (step (trig 0 c) c w q0 m e) as [[[its1 w1] q1] r]. simpl in X.
+    destruct (is_exn r); [exact X|]. specialize (IH w1 q1).
+    destruct (drain f c w1 q1) as [[its2 w2] x2]. simpl in *. apply hkf_app; assumption.
+  Qed.
+
+  Lemma top_trig_hk : forall w m e, hkf (fst (fst (top_trig c w m e))).
+  Proof.
+    intros w m e. unfold top_trig. destruct (tc_queued c).
+    - pose proof (step_hk _ (trig_hk 0) w [] m e) as X.
+      destruct (step (trig 0 c) c w [] m e) as [[[its1 w1] q1] r]. simpl in X.
+      destruct (is_exn r); [exact X|]. pose proof (drain_hk DRAIN_FUEL w1 q1) as Y.
+      destruct (drain DRAIN_FUEL c w1 q1) as [[its2 w2] x2]. simpl in *. apply hkf_app; assumption.
+    - pose proof (trig_hk FUEL w [] m e) as X. destruct (trig FUEL c w [] m e) as [[[its1 w1] q1] r]. exact X.
+  Qed.
+
+  Lemma acts_async_hk : forall m cbs w, hkf (fst (acts_async c w m cbs)).
+  Proof.
+    intros m cbs. induction cbs as [|cb r IH]; intros w; simpl; [reflexivity|].
+    assert (A : hkf (fst (do_act c w m cb))).
+    { unfold do_act. destruct (oc_act cb) as [[who e]|]; [|reflexivity].
+      pose proof (top_trig_hk w (match who with Some k => k | None => m end) e) as X.
+      destruct (top_trig c w (match who with Some k => k | None => m end) e) as [[its0 w0] r0]. simpl in *.
+      apply hkf_app; [exact X|reflexivity]. }
+    destruct (do_act c w m cb) as [ia w1]. specialize (IH w1). destruct (acts_async c w1 m r) as [ir w2].
+    simpl in *. apply hkf_app; assumption.
+  Qed.
+End Hk.
 
 Lemma filter_map_all {A} (g : A -> titem) (f : titem -> bool) (l : list A) :
   (forall a, f (g a) = true) -> filter f (map g l) = map g l.
@@ -744,27 +991,22 @@ Qed.
 
 Lemma async_fire_items : forall b c w i tm,
   tc_async c = true -> Inv b w -> pend w i tm -> ids_positive c (tm_state tm) = true ->
-  filter handler_kind (fst (fire c w i tm)) = async_firing c (tm_model tm) (tm_state tm) (w_clock w) /\
-  length (filter is_cres (fst (fire c w i tm))) = length (filter has_act (ts_on_timeout (sdef c (tm_state tm)))).
+  filter handler_kind (fst (fire c w i tm)) = async_firing c (tm_model tm) (tm_state tm) (w_clock w).
 Proof.
   intros b c w i tm Ha I P Hpos. unfold fire, handler, handler_async. rewrite Ha.
   set (w1 := set_timers w (upd_nth (w_timers w) i start_running)).
   set (cbs := ts_on_timeout (sdef c (tm_state tm))) in *.
-  destruct (acts_async_items c (tm_model tm) cbs w1) as [Q1 Q2].
+  pose proof (acts_async_hk c (tm_model tm) cbs w1) as Q1. apply filter_none in Q1.
   destruct (acts_async c w1 (tm_model tm) cbs) as [ia w2]. simpl in *.
   destruct (inv_pend _ _ I _ _ P) as [Hs _]. rewrite Hs.
-  rewrite !filter_app, Q1, !app_length, Q2.
-  rewrite (filter_map_all _ handler_kind) by reflexivity.
-  rewrite (filter_map_none _ is_cres) by reflexivity. unfold async_firing. fold cbs.
-  destruct (first_raising cbs) as [k|] eqn:Hf.
-  - destruct (first_raising_in _ _ Hf) as (cb & Hin & Hid).
-    unfold ids_positive in Hpos. fold cbs in Hpos. eapply forallb_forall in Hpos; [|exact Hin].
-    apply Nat.ltb_lt in Hpos. rewrite Hid in Hpos.
-    rewrite (filter_map_all _ handler_kind), (filter_map_none _ is_cres).
-    + simpl. split; [reflexivity|lia].
-    + reflexivity.
-    + intros h. simpl. destruct k; [lia|reflexivity].
-  - simpl. split; [reflexivity|lia].
+  rewrite !filter_app, Q1.
+  rewrite (filter_map_all _ handler_kind) by reflexivity. unfold async_firing. fold cbs.
+  destruct (first_raising cbs) as [k|] eqn:Hf; [|reflexivity].
+  destruct (first_raising_in _ _ Hf) as (cb & Hin & Hid).
+  unfold ids_positive in Hpos. fold cbs in Hpos. eapply forallb_forall in Hpos; [|exact Hin].
+  apply Nat.ltb_lt in Hpos. rewrite Hid in Hpos.
+  rewrite (filter_map_all _ handler_kind); [reflexivity|].
+  intros h. simpl. destruct k; [lia|reflexivity].
 Qed.
 
 Lemma filter_sub {A} (f g : A -> bool) (l : list A) :
@@ -779,10 +1021,9 @@ Qed.
 Lemma async_shield : forall b c w i tm,
   tc_async c = true -> Inv b w -> pend w i tm -> ids_positive c (tm_state tm) = true ->
   filter is_ctimeout (fst (fire c w i tm)) =
-    map (fun cb => CTimeout (oc_id cb) (tm_model tm) (tm_state tm) (w_clock w)) (ts_on_timeout (sdef c (tm_state tm))) /\
-  length (filter is_cres (fst (fire c w i tm))) = length (filter has_act (ts_on_timeout (sdef c (tm_state tm)))).
+    map (fun cb => CTimeout (oc_id cb) (tm_model tm) (tm_state tm) (w_clock w)) (ts_on_timeout (sdef c (tm_state tm))).
 Proof.
-  intros b c w i tm Ha I P Hpos. destruct (async_fire_items b c w i tm Ha I P Hpos) as [A B]. split; [|exact B].
+  intros b c w i tm Ha I P Hpos. pose proof (async_fire_items b c w i tm Ha I P Hpos) as A.
   rewrite (filter_sub is_ctimeout handler_kind) by (intros [] H; simpl in *; congruence || reflexivity).
   rewrite A. unfold async_firing. simpl. rewrite filter_app.
   rewrite (filter_map_all _ is_ctimeout) by reflexivity.
@@ -797,7 +1038,7 @@ Lemma async_exception : forall b c w i tm,
     | None => []
     end.
 Proof.
-  intros b c w i tm Ha I P Hpos. destruct (async_fire_items b c w i tm Ha I P Hpos) as [A _].
+  intros b c w i tm Ha I P Hpos. pose proof (async_fire_items b c w i tm Ha I P Hpos) as A.
   rewrite (filter_sub is_user_onexc handler_kind) by (intros [] H; simpl in *; congruence || reflexivity).
   rewrite A. unfold async_firing. simpl. rewrite filter_app.
   rewrite (filter_map_none _ is_user_onexc) by reflexivity. simpl.
